@@ -23,6 +23,10 @@ What is read from the source (AST only) and emitted as Lean definitions that the
   arguments with which the handler of the validator loop of `Parameter.validate` calls it (a function of (self.name, the name the
   exception carries)); `Parameter.raise_exception` (the required / conversion path) names `self.name`; and
   `Validator.validate_param` (abstract_validator.py): what it assigns to `ex.parameter_name` before re-raising;
+* the BODIES, statement by statement (gen/_validate_bodies.py): `Parameter.validate` as a program `validateProg` (None rule, conversion
+  with its handler, validator loop with its handler, return - in source order); the branches of the keyword / positional / inner zip
+  loop as `Write` records; where the zip branch takes the surplus positionals from (`zipSurplusSource`: `[a for a in args if a not
+  in used_args]` or `bound_args[k]`) and its strict test (`zipStrictTest`); the third loop as the decision table `absentAct`;
 * the strict tests: the condition under which the `else` branch (no Parameter declared for the key) of the keyword loop and of the
   positional loop raises TooManyArguments, each as a Boolean function of (strict, the key) - comparisons of the key with string
   literals (`==`, `!=`, `in` / `not in` a tuple / list / set of literals or a STRING, which is a substring test), literals and
@@ -39,6 +43,7 @@ Anything outside these shapes raises Skip (the committed snapshot is used and th
 import ast
 from extract import Skip, src, find_func, lean_bool, lean_str, HEADER
 from gen._validate_names import NAMES
+from gen import _validate_bodies as B
 
 REL = 'pedantic/decorators/fn_deco_validate/fn_deco_validate.py'
 REL_P = 'pedantic/decorators/fn_deco_validate/parameters/abstract_parameter.py'
@@ -533,7 +538,12 @@ def gen_strict_tests(tree, fn, by_signature):
                     hits.append(els[0].test)
                 else:
                     raise Skip(f'_wrapper_content: the else branch of `{key} in parameter_dict` ({which} loop) is not `if <test>: raise TooManyArguments`')
-        n_raise = sum(1 for x in ast.walk(f) if isinstance(x, ast.Raise) and isinstance(x.exc, ast.Call) and is_name(x.exc.func, 'TooManyArguments'))
+        # (a strict test in front of the inner loop of the zip branch is translated separately: gen/_validate_bodies.py)
+        inner = set(id(x) for lp in ast.walk(f) if isinstance(lp, ast.If) and lp is not f and any(
+            isinstance(y, ast.Call) and is_name(y.func, 'zip') for y in ast.walk(lp)) and ast.unparse(lp.test) != f'{key} in parameter_dict'
+            for x in ast.walk(ast.Module(body=lp.body, type_ignores=[])))
+        n_raise = sum(1 for x in ast.walk(f) if isinstance(x, ast.Raise) and isinstance(x.exc, ast.Call) and is_name(x.exc.func, 'TooManyArguments')
+                      and id(x) not in inner)
         if len(hits) != 1 or n_raise != 1 or which in out:
             raise Skip(f'_wrapper_content: expected exactly one `raise TooManyArguments` in the {which} loop')
         out[which] = bool_expr(hits[0], key_test(key, which))
@@ -912,6 +922,10 @@ def gen_validate(repo):
     stateless = validate_is_stateless(ptree)
     nm = gen_naming(ast.parse(src(repo, REL_E)), ptree, ast.parse(src(repo, REL_V)))
     kw_strict, pos_strict = gen_strict_tests(tree, find_func(tree, '_wrapper_content'), by_signature)
+    vprog = B.gen_validate_prog(ptree)
+    writes, zip_branch, pkey = B.gen_writes(find_func(tree, '_wrapper_content'))
+    zip_src, zip_strict, zip_write = B.gen_zip(find_func(tree, '_wrapper_content'), zip_branch, pkey)
+    absent = B.gen_absent(find_func(tree, '_wrapper_content'))
     under = ' | '.join(f'.{k} => {lean_bool(u)}' for k, u in sorted(loops))
     return HEADER.format(rel=REL + ', ' + REL_P + ', ' + REL_E + ' and ' + REL_V) + f'''set_option linter.unusedVariables false
 namespace PedVerif.Gen.Validate
@@ -1000,6 +1014,26 @@ def zipBranchTest (keyIsArgs wantsArgs keyIsVarPositional : Bool) : Bool := {zip
 def bookkeepingIsPerCall : Bool := {lean_bool(per_call)}
 /-- `Parameter.validate` assigns no attribute of `self` and declares no `global` / `nonlocal`: no state is kept between calls -/
 def parameterValidateIsStateless : Bool := {lean_bool(stateless)}
+
+{B.LEAN_TYPES}
+/-- {REL_P}: `Parameter.validate`, its top-level statements in source order -/
+def validateProg : List VStmt := {vprog}
+
+/-- the branch `if k in parameter_dict:` of the keyword loop, and its `else` (below the strict test) -/
+def kwDeclaredWrite : Write := {writes['kwDeclaredWrite']}
+def kwUndeclaredWrite : Write := {writes['kwUndeclaredWrite']}
+/-- the branch `elif k in parameter_dict:` of the positional loop, and its `else` (below the strict test) -/
+def posDeclaredWrite : Write := {writes['posDeclaredWrite']}
+def posUndeclaredWrite : Write := {writes['posUndeclaredWrite']}
+/-- the `zip` branch: `for arg, parameter in zip(<surplus>, [p for p in parameters if p.name not in used_parameter_names])` -/
+def zipSurplusSource : SurplusSource := {zip_src}
+def zipWrite : Write := {zip_write}
+/-- the test in front of the inner loop under which the zip branch raises TooManyArguments, as a function of `strict`, the number
+    of surplus positionals and the number of Parameters not used so far; `false` when the source has no such test -/
+def zipStrictTest (strict : Bool) (nSurplus nUnused : Nat) : Bool := {zip_strict}
+/-- the third loop (`for parameter in unused_parameters`) as a decision table -/
+def absentAct (isExternal hasValue isRequired hasParamDefault nameInSignature sigDefaultNotEmpty : Bool) : AbsentAct :=
+  {absent}
 
 /-! ### `wrapper` / `async_wrapper`: the hand-over to the decorated function -/
 
